@@ -7,6 +7,7 @@ import (
 
 	vh "github.com/emmansun/gmsm/verifhook"
 	"pgregory.net/rapid"
+	"verif/harness/gen"
 	"verif/harness/h"
 )
 
@@ -251,14 +252,23 @@ func enumWin(base bool) func(emit func(winCase)) {
 	return func(emit func(winCase)) {
 		// a small multiple of the generator is as good an operand as any and
 		// keeps the model cheap
-		a := be32(new(big.Int).SetUint64(2 + h.SubSeed("win-point")%65000))
-		for pos := 0; pos < 64; pos++ {
-			for val := 0; val < 16; val++ {
-				c := winCase{Base: base, Pos: pos, Val: val}
-				if !base {
-					c.A = a
+		pts := [][]byte{be32(new(big.Int).SetUint64(2 + h.SubSeed("win-point")%65000))}
+		if h.Thorough() && !base {
+			// also the generator itself, its inverse and a full-size multiple
+			pts = append(pts, be32(big1), be32(nMinus1()), be32(modN(new(big.Int).SetBytes(gen.Fill(h.SubSeed("win-point-2"), 32)))))
+		}
+		if base {
+			pts = pts[:1]
+		}
+		for _, a := range pts {
+			for pos := 0; pos < 64; pos++ {
+				for val := 0; val < 16; val++ {
+					c := winCase{Base: base, Pos: pos, Val: val}
+					if !base {
+						c.A = a
+					}
+					emit(c)
 				}
-				emit(c)
 			}
 		}
 	}
@@ -420,7 +430,7 @@ func checkAdd[L any, E any](g *grp[L, E]) func(c addCase, r *h.Rec) error {
 }
 
 func TestC09_G1Add(t *testing.T) {
-	h.Prop(t, h.P{Name: "g1-add", Quick: 600, Thorough: 12000, Journal: true}, genAdd, checkAdd(&grp1))
+	h.Prop(t, h.P{Name: "g1-add", Quick: 600, Thorough: 10000, Journal: true}, genAdd, checkAdd(&grp1))
 }
 
 func TestC09_G2Add(t *testing.T) {
@@ -531,7 +541,7 @@ func checkChain[L any, E any](g *grp[L, E]) func(c chainCase, r *h.Rec) error {
 }
 
 func TestC09_G1Chain(t *testing.T) {
-	h.Prop(t, h.P{Name: "g1-chain", Quick: 800, Thorough: 16000, Journal: true}, genChain, checkChain(&grp1))
+	h.Prop(t, h.P{Name: "g1-chain", Quick: 800, Thorough: 12000, Journal: true}, genChain, checkChain(&grp1))
 }
 
 func TestC09_G2Chain(t *testing.T) {
